@@ -40,7 +40,7 @@ RULE = ('contents: every subset of the nine signatures (one offset-0 '
 ASSUMPTIONS = [
     'sigmodel.sig is the reference for "signature present"; marginal content '
     '(magic present, structure cut short) admits either answer',
-    'content in the recorded text-descriptor VMDK class (finding F-c of C01) '
+    'content in the recorded text-descriptor VMDK class (finding F-c of C01: text mode with a createType=" line somewhere) '
     'is marginal for vmdk: only totality and exclusivity are judged there',
     'a decision that is withdrawn (format returns to None) and later '
     'reinstated with the same name is counted, not flagged',
@@ -294,6 +294,13 @@ def restricted_sweep(col, fmt):
             contents.append({'bytes': (head[:40] + b'\xff' + head[40:]
                                        + b'\n' * 100).hex(),
                              'kind': 'textdesc'})
+        # prose (no createType line anywhere) with one non-ASCII character
+        # before / inside / after the first sector and the first 4 KiB read
+        for late in (0, 3, 63, 64, 300, 511, 512, 513, 700, 4095, 4096,
+                     5000):
+            contents.append({'base': ['raw', dict(length=6000, kind='utf8',
+                                                  late=late)],
+                             'kind': 'prose'})
     if fmt in ('vhdx', 'iso'):
         contents[0] = {'base': [fmt, {}], 'kind': 'valid'}
     for content in contents:
@@ -302,6 +309,8 @@ def restricted_sweep(col, fmt):
                 from vcheck import imgstrat
                 n = len(imgstrat.realize(content)[0])
                 if n / k > 5000:
+                    continue
+                if content['kind'] == 'prose' and k not in (9, 512, 4096):
                     continue
                 for mode in ('read', 'iter', 'short'):
                     check_detection(col, {'content': content,
